@@ -83,6 +83,9 @@ NUM_EXPRS = [
 
 # many converted calls in ONE statement (more temporaries than any listing in the test suite needs: two-digit numbering)
 NUM_EXPRS += [
+    ("B*JOYSTK+JOYSTK", ("bin", "+", ("bin", "*", B, F("JOYSTK", n(0))), F("JOYSTK", n(1)))),
+    ("BUTTON*2+BUTTON*3+BUTTON", ("bin", "+", ("bin", "+", ("bin", "*", F("BUTTON", n(0)), n(2)), ("bin", "*", F("BUTTON", n(1)), n(3))), F("BUTTON", n(2)))),
+    ("LEN(INKEY$)+LEN(INKEY$)*2+BUTTON", ("bin", "+", ("bin", "+", F("LEN", F("INKEY$")), ("bin", "*", F("LEN", F("INKEY$")), n(2))), F("BUTTON", n(0)))),
     ("12xINT", _sum([F("INT", ("bin", "+", A, n(k))) for k in range(12)])),
     ("13xBUTTON", _sum([("bin", "*", F("BUTTON", n(k % 4)), n(k + 1)) for k in range(13)])),
     ("11xLEN(STR$)", _sum([F("LEN", F("STR$", n(10 ** (k % 4)))) for k in range(11)])),
@@ -110,6 +113,8 @@ STR_EXPRS = [
     ("MID$2(INKEY$+HEX$,INT)", F("MID$", ("bin", "+", F("INKEY$"), F("HEX$", n(255))), F("INT", n(2)))),
     ("STR$(INSTR2(STR$,STR$))", F("STR$", F("INSTR", F("STR$", n(12)), F("STR$", F("BUTTON", n(0)))))),
     ("12xINKEY$", _sum([F("INKEY$") for _ in range(12)])),
+    ("K+INKEY$+INKEY$", ("bin", "+", ("bin", "+", ("str", "K"), F("INKEY$")), F("INKEY$"))),
+    ("INKEY$+STR$(BUTTON)+INKEY$+HEX$(JOYSTK)", ("bin", "+", ("bin", "+", ("bin", "+", F("INKEY$"), F("STR$", F("BUTTON", n(0)))), F("INKEY$")), F("HEX$", F("JOYSTK", n(1))))),
     ("11xHEX$", _sum([F("HEX$", n(k + 10)) for k in range(11)])),
 ]
 
@@ -149,7 +154,10 @@ def carrier(name, e):
         return one([("print", [("e", A), ("sep", ","), ("e", e), ("sep", ";")], None)])
     if name == "print_at_raw":
         return one([("print", [("e", e), ("sep", ";"), ("e", ("str", "!"))], n(5))])
-    e = e if e[0] in ("fn", "arr", "par") else ("par", e)
+    if name not in STR_CARRIERS:
+        # (numeric expressions ride in parentheses; the tool's grammar has no parenthesised STRING expression, so a string
+        # sum rides as it is - wrapped, every string sum of the workload was refused and none of them was ever observed)
+        e = e if e[0] in ("fn", "arr", "par") else ("par", e)
     if name == "varptr_sub":
         # the address itself is machine matter (not compared); the calls inside the subscript are not
         return one([("let", ("var", "VP"), ("fn", "VARPTR", [("arr", "X", [("bin", "AND", e, n(7))])]), False)])
